@@ -2,6 +2,7 @@ package props
 
 import (
 	"fmt"
+	"net/url"
 	"strings"
 
 	"github.com/tigerwill90/fox"
@@ -14,7 +15,7 @@ import (
 func init() {
 	register(&Prop{
 		ID: "C07", Level: "exploration",
-		Rule: "one case = two real routers with the same options: A is driven through a seeded mutation history (inserts, updates, deletes, truncations, re-insertions, committed/aborted/panicked transactions, copy cache capacity drawn); B is fresh and receives A's final set in a random order (small sets: a random permutation), one time in three inside a single write transaction which is asked the probes (Lookup, Reverse) before it commits. Every probe derived from the patterns involved is sent to both through Lookup (route, parameters, tsr flag), Reverse and ServeHTTP (handler, parameters, status, Allow set, Location) and the answers must be equal; no reference model takes part in the comparison. Any difference is a violation (in 80 000 exploratory runs equal sets always produced equal answers, including the C08 known findings, which are a function of the set). Non-trivial: A's history contains at least one effective delete or truncate and the final set has at least 3 routes; distinct = hash of (A's history, B's order).",
+		Rule: "one case = two real routers with the same options: A is driven through a seeded mutation history (inserts, updates, deletes, truncations, re-insertions, committed/aborted/panicked transactions, copy cache capacity drawn); B is fresh and receives A's final set in a random order (small sets: a random permutation), one time in three inside a single write transaction which is asked the probes (Lookup, Reverse) before it commits. Every probe derived from the patterns involved (one in four with an escaped form differing from its decoded path) is sent to both through Lookup (route, parameters, tsr flag), Reverse and ServeHTTP (handler, parameters, status, Allow set, Location) and the answers must be equal; no reference model takes part in the comparison. Any difference is a violation (in 80 000 exploratory runs equal sets always produced equal answers, including the C08 known findings, which are a function of the set). Non-trivial: A's history contains at least one effective delete or truncate and the final set has at least 3 routes; distinct = hash of (A's history, B's order).",
 		Run:  runC07, Quick: 64000, Thorough: 9600000,
 		Real: commonReal, Stub: commonStub,
 		Domain: []string{"as C01/C08; both routers are built in the same process with the same generated options"},
@@ -106,9 +107,37 @@ func runC07(src sim.Source, o Opts) *Result {
 			break
 		}
 		res.Checks++
-		la, lb := world.ObsLookup(rr.w.R, p), world.ObsLookup(wb.R, p)
+		// one probe in four carries an escaped form that differs from its decoded path: a needlessly escaped byte
+		// (same path either way) or an escaped separator inside a segment
+		rawPath := ""
+		if p.Path != "*" && len(p.Path) > 1 && src.Intn("escaped", 4) == 0 {
+			segs := strings.Split(p.Path, "/")
+			i := 1 + src.Intn("rseg", len(segs)-1)
+			if segs[i] != "" && segs[i] != "." && segs[i] != ".." {
+				if src.Intn("esckind", 2) == 0 {
+					segs[i] = fmt.Sprintf("%%%02X", segs[i][0]) + segs[i][1:]
+				} else {
+					segs[i] = sim.Pick(src, "rval", []string{"a%2Fb", "x%2Fy", "%2F"})
+				}
+				if u, err := url.ParseRequestURI(strings.Join(segs, "/")); err == nil && u.RawPath != "" {
+					p.Path, rawPath = u.Path, u.RawPath
+					res.inc("probes_with_escaped_path")
+				}
+			}
+		}
+		lookup := func(w *world.World) world.RouteObs {
+			req := world.NewRequest(p.Method, p.Host, p.Path, rawPath, "", nil)
+			rt, cc, tsr := w.R.Lookup(world.NewRW(world.NewConn()), req)
+			if rt == nil {
+				return world.RouteObs{Tag: -1}
+			}
+			o := world.RouteObs{Tag: world.TagOf(rt), Pattern: rt.Pattern(), TSR: tsr, HasParams: true, Params: world.CollectParams(cc)}
+			cc.Close()
+			return o
+		}
+		la, lb := lookup(rr.w), lookup(wb)
 		ra, rbv := world.ObsReverse(rr.w.R, p), world.ObsReverse(wb.R, p)
-		sa, sb := rr.w.Serve(p, "", "", nil), wb.Serve(p, "", "", nil)
+		sa, sb := rr.w.Serve(p, rawPath, "", nil), wb.Serve(p, rawPath, "", nil)
 		fa := fmt.Sprintf("lookup=%s reverse=%s serve=%s allow=%v", la, ra, fmtObs(sa), sa.Allow)
 		fb := fmt.Sprintf("lookup=%s reverse=%s serve=%s allow=%v", lb, rbv, fmtObs(sb), sb.Allow)
 		if fa == fb {
